@@ -1,0 +1,71 @@
+//go:build verif
+
+package wait
+
+import (
+	"math/rand/v2"
+	"time"
+
+	"github.com/fatedier/frp/verif"
+)
+
+// C14 "the client ... re-registers ... within a bounded delay, and does not
+// retry in a tight loop while the server is unreachable": the delay the
+// back-off manager hands to BackoffUntil is always positive, and after a
+// failure outside the fast-retry allowance it never exceeds MaxDuration.
+// (Floating point is treated as real arithmetic: assumption A-REAL.)
+
+// Library contract (trusted): rand.Float64 is in [0,1).
+//
+//verif:contract math/rand/v2.Float64
+//verif:trusted
+func verif_rand_Float64() {
+	r := rand.Float64()
+	verif.Ensures(0 <= r && r < 1, "unit_interval")
+}
+
+// Jitter never shortens a delay, and stretches it by less than maxFactor
+// (1 when maxFactor is not positive).
+//
+//verif:contract ~/pkg/util/wait.Jitter
+//verif:props C14
+func verif_Jitter(duration time.Duration, maxFactor float64) {
+	verif.Requires(duration >= 0 && maxFactor <= 1000, "non_negative_delay_sane_factor")
+	w := Jitter(duration, maxFactor)
+	verif.Ensures(w >= duration, "never_shorter")
+	if maxFactor > 0 {
+		verif.Ensures(float64(w) <= float64(duration)+maxFactor*float64(duration), "stretched_by_less_than_the_factor")
+	} else {
+		verif.Ensures(w <= 2*duration, "stretched_by_less_than_the_default_factor")
+	}
+}
+
+// VerifSaneOptions: the shape of every option set used in the repository
+// (checked at the construction sites by the obligations pre.*.sane_options).
+//
+//verif:pure
+func VerifSaneOptions(o FastBackoffOptions) bool {
+	return o.Duration > 0 && o.InitDurationIfFail >= 0 && o.MaxDuration >= 0 &&
+		(o.Factor == 0 || o.Factor >= 1) && o.Factor <= 1000 && o.Jitter >= 0 && o.Jitter <= 1000 &&
+		o.FastRetryCount >= 0 && (o.FastRetryCount == 0 || o.FastRetryDelay > 0) && o.FastRetryJitter <= 1000
+}
+
+// Backoff: the next delay is positive; after a failure outside the fast-retry
+// allowance it is at most MaxDuration (when one is configured); after a success
+// it is the base duration.
+//
+//verif:contract (*~/pkg/util/wait.fastBackoffImpl).Backoff
+//verif:props C14
+func verif_Backoff(f *fastBackoffImpl, previousDuration time.Duration, previousConditionError bool) {
+	verif.Requires(VerifSaneOptions(f.options) && previousDuration >= 0, "sane_options")
+	verif.ResetEvents()
+	d := f.Backoff(previousDuration, previousConditionError)
+	verif.Ensures(d > 0, "never_a_tight_loop")
+	fast := verif.Called("wait.Jitter") && verif.NthArg[time.Duration]("wait.Jitter", 0, 0) == f.options.FastRetryDelay && verif.CallCount("wait.Jitter") == 1 && d == verif.Ret[time.Duration]("wait.Jitter", 0)
+	if previousConditionError && f.options.MaxDuration > 0 && !fast {
+		verif.Ensures(d <= f.options.MaxDuration || d == f.options.Duration, "bounded_delay_after_failure")
+	}
+	if !previousConditionError {
+		verif.Ensures(d == f.options.Duration, "base_delay_after_success")
+	}
+}
